@@ -97,7 +97,7 @@ pub fn weird_history() -> impl Strategy<Value = MuxCase> {
                 ops.truncate(6);
                 ops.push(MOp { track: t, size: (1 << 24) + 3, dur: 1, cts: 0, sync: true });
             }
-            MuxCase { major, minor, compat, timescale, tracks, ops }
+            MuxCase { major, minor, compat, timescale, tracks, ops, sink: 0 }
         })
 }
 
@@ -174,7 +174,7 @@ pub fn run(ctx: &mut Ctx) {
     ctx.stage("directed");
     let avc = |sps: Vec<u8>| MKind::Avc { width: 2, height: 2, sps, pps: vec![1] };
     let mut directed: Vec<MuxCase> = Vec::new();
-    let base = |tracks: Vec<MTrack>, ops: Vec<MOp>, ts: u32| MuxCase { major: *b"isom", minor: 0, compat: vec![], timescale: ts, tracks, ops };
+    let base = |tracks: Vec<MTrack>, ops: Vec<MOp>, ts: u32| MuxCase { major: *b"isom", minor: 0, compat: vec![], timescale: ts, tracks, ops, sink: 0 };
     let op = |track: u32, size: u32, dur: u32| MOp { track, size, dur, cts: 0, sync: true };
     let tr = |kind: MKind, ts: u32, lang: &str| MTrack { kind, timescale: ts, language: lang.to_string(), preset: false };
     directed.push(base(vec![], vec![], 1000));
